@@ -4,6 +4,7 @@ import Ecal.Lemmas.LexerPos
 import Ecal.Lemmas.LexerSteps
 import Ecal.Lemmas.LexerInv
 import Ecal.Lemmas.LexTerminates
+import Ecal.Lemmas.LexerList
 import Ecal.Gen.C18
 /-!
 # C18 — tokens, errors and breakpoints carry the true source position
@@ -29,11 +30,22 @@ Proved, for every input and every token the lexer emits:
 * `errors_carry_token_pos` — a source fact regenerated (go/ast) on every run: errors, messages,
   stack traces, the except object and break point keys copy Lline / Lpos of one token.
 
+* `stale_column_exact` — the stale column after a `#` comment exactly: measured from the same line
+  start as that comment's own column;
+* `token_list_shape`, `lines_monotone`, `eof_line_true` — EOF only at the end, `Pos` strictly
+  increasing, lines never decreasing, EOF carries the line of the end of the input.
+
 Not proved (tested by the correspondence on every run): that the model equals parser/lexer.go;
-the stale column VALUE after a `#` comment (only classified); the EOF token's line (= line of
-the end of input; evaluated per case); that `Pos` is strictly increasing along the token list
-(every phase moves forward — `Pushed` — but the list-level statement is not drawn);
-`separation_ignores_comments` (case kind S); errors / break points at run time (kinds E, B).
+errors / break points at run time (kinds E, B) beyond the syntactic source fact;
+`separation_ignores_comments` (case kind S, metamorphic). A theorem for the separation clause
+would need the PARSER model: (1) that `Ecal.Parse.parse` reads token lines only through the
+comparisons `<` / `==` between two tokens' lines (a parametricity lemma over the parser model's
+`run`, `ndReturn`, `ndIdentifier`, `hasMoreStatements`); (2) that inserting a comment between two
+tokens leaves the non-comment token sequence and, by `lines_monotone` and
+`token_positions_true_partial`, every such comparison unchanged — the lexer half, which follows
+from the theorems here once "lexing `pre ++ comment ++ rest` = lexing `pre ++ blanks-with-the-same-
+newlines ++ rest` up to the comment token" is proved (a compositionality lemma for `lex` that is
+not there yet); (3) the parser model's agreement with parser.go (C07's tie).
 
 Full-strength statement, false as it stands (`hash_comment_column_witness`):
   `∀ input, ∀ t ∈ lex input, t.id ≠ tEOF → t.line = lineOf input t.pos ∧ t.col = colOf input t.pos`.
@@ -179,10 +191,26 @@ theorem token_positions_true_partial (input : List Nat) :
       t.line = lineOf input.toArray t.pos ∧
       (t.col = colOf input.toArray t.pos ∨
         afterHashComment input.toArray (lex input).toList t.pos = true) :=
-  fun t ht hne => (lex_ok input t ht hne).1
+  fun t ht hne => ⟨(lex_ok input t ht hne).1.1, (lex_ok input t ht hne).1.2.imp id HashRel.classified⟩
 
 /-- non-vacuity: `a # c\nb` has four tokens, three of them not EOF -/
 example : ((lex witnessSrc).toList.filter (·.id ≠ tEOF)).length = 3 := by decide +kernel
+
+/-- **stale_column_exact.** The column of a token on the line after a `#` comment is not merely
+    "classified": it is measured from the same line start as that comment's own column. For every
+    token `t` (not EOF): the column is true, or there is a `#` comment token `c` in the list whose
+    final byte is the last newline before `t` (`c.pos + |c.val|` = the true line start of `t`,
+    `c.val` ends in `'\n'`) and `t.col − t.pos = c.col − c.pos`. Applied to `c` in turn (its column is
+    true or relative to the comment before it) this fixes the reported column exactly: it counts
+    from the start of the first line of the run of `#`-terminated lines (`a # c⏎b`: `#`-text at
+    offset 3, column 4; `b` at offset 6 ⇒ column 7). -/
+theorem stale_column_exact (input : List Nat) :
+    ∀ t ∈ (lex input).toList, t.id ≠ tEOF →
+      t.col = colOf input.toArray t.pos ∨
+      ∃ c ∈ (lex input).toList, c.id = tPOSTCOMMENT ∧
+        c.pos + c.val.length = lineStart input.toArray t.pos ∧ 0 < lineStart input.toArray t.pos ∧
+        c.val.getLast? = some 10 ∧ t.col - (t.pos : Int) = c.col - (c.pos : Int) :=
+  fun t ht hne => (lex_ok input t ht hne).1.2
 
 /-! ## Pos is the token's first character -/
 
@@ -250,6 +278,62 @@ theorem lexer_always_closes (input : List Nat) :
 
 example : ((lex witnessSrc).back?.map (·.id)) = some tEOF ∧ ((lex [34, 97]).back?.map (·.id)) = some tEOF ∧
     ((lex [97, 63, 32, 98]).back?.map (·.id)) = some tERROR := by decide +kernel
+
+/-! ## The token list as a whole -/
+
+/-- **token_list_shape.** Every token list is `body ++ fin`: `body` has no EOF token and strictly
+    increasing `Pos`; `fin` is empty or the single EOF token. (With `lexer_always_closes`: if `fin` is
+    empty the body ends with an error token.) -/
+theorem token_list_shape (input : List Nat) :
+    ∃ body fin, (lex input).toList = body ++ fin ∧ (∀ t ∈ body, t.id ≠ tEOF) ∧
+      body.Pairwise (fun a b => a.pos < b.pos) ∧ (fin = [] ∨ ∃ eof, fin = [eof] ∧ eof.id = tEOF) := by
+  obtain ⟨body, fin, h1, ⟨b1, b2, _⟩, h3⟩ := lex_final input
+  refine ⟨body, fin, h1, b1, b2, ?_⟩
+  rcases h3 with ⟨h, _⟩ | ⟨eof, h, hid, _⟩
+  · exact Or.inl h
+  · exact Or.inr ⟨eof, h, hid⟩
+
+/-- **pos_strictly_increasing / lines_monotone.** Along the token list (EOF aside) `Pos` is strictly
+    increasing and the reported lines never decrease — what the parser's line comparisons (and the
+    rule of the `sep` cases) rely on. -/
+theorem lines_monotone (input : List Nat) :
+    ((lex input).toList.filter (·.id ≠ tEOF)).Pairwise (fun a b => a.pos < b.pos ∧ a.line ≤ b.line) := by
+  obtain ⟨body, fin, h1, b1, b2, h3⟩ := token_list_shape input
+  have hf : (lex input).toList.filter (·.id ≠ tEOF) = body := by
+    rw [h1, List.filter_append]
+    have e1 : body.filter (·.id ≠ tEOF) = body := List.filter_eq_self.mpr (fun t ht => by simpa using b1 t ht)
+    have e2 : fin.filter (·.id ≠ tEOF) = [] := by
+      rcases h3 with rfl | ⟨eof, rfl, hid⟩
+      · rfl
+      · simp [hid]
+    rw [e1, e2, List.append_nil]
+  rw [hf]
+  have hmem : ∀ t ∈ body, t ∈ (lex input).toList := fun t ht => by rw [h1]; exact List.mem_append_left _ ht
+  refine List.Pairwise.imp_of_mem ?_ b2
+  intro a b ha hb hab
+  refine ⟨hab, ?_⟩
+  rw [(token_positions_true_partial input a (hmem a ha) (b1 a ha)).1,
+    (token_positions_true_partial input b (hmem b hb) (b1 b hb)).1]
+  exact lineOf_mono _ (Nat.le_of_lt hab)
+
+/-- **eof_line_true.** If the lexer did not stop at an error token, the token list ends with the EOF
+    token and that token's line is the line of the end of the input (its `Pos` / column are those of
+    the previous token's start: known finding `eof-stale-position`). -/
+theorem eof_line_true (input : List Nat) (hne : ∀ t ∈ (lex input).toList, t.id ≠ tERROR) :
+    ∃ eof, (lex input).toList.getLast? = some eof ∧ eof.id = tEOF ∧
+      eof.line = lineOf input.toArray input.toArray.size := by
+  obtain ⟨body, fin, h1, _, h3⟩ := lex_final input
+  have hb : ∀ e, body.getLast? = some e → e.id ≠ tERROR := fun e he =>
+    hne e (by rw [h1]; exact List.mem_append_left _ (List.mem_of_getLast? he))
+  rcases h3 with ⟨_, e, he, hid⟩ | ⟨eof, hf, hid, hl⟩
+  · exact absurd hid (hb e he)
+  · refine ⟨eof, by rw [h1, hf]; simp, hid, ?_⟩
+    rcases hl with hl | ⟨e, he, hide⟩
+    · exact hl
+    · exact absurd hide (hb e he)
+
+example : (∀ t ∈ (lex witnessSrc).toList, t.id ≠ tERROR) ∧
+    ((lex [97, 10, 10]).toList.map fun t => (t.id, t.line)) = [(tIDENTIFIER, 1), (tEOF, 3)] := by decide +kernel
 
 /-! ## Errors, stack traces and break points copy the token's position (regenerated source fact) -/
 
